@@ -1,6 +1,6 @@
 /-
   Fast network solver WITH modules (`FastControlNode`): neat/network/fast_network.go (`forwardStep` module loop,
-  `RecursiveSteps` module guard, `Relax`, `Flush`, `NodeCount`, `LinkCount`) and the translation of control nodes
+  `RecursiveSteps` module guard, `Relax`, `Flush` (= `Fast.flush`, after repair 1a387d5), `NodeCount`, `LinkCount`) and the translation of control nodes
   in `Network.FastNetworkSolver()` (neat/network/network.go).
 
   * `FastModNet` = a `FastNet` (Model/FastSolver.lean) plus the module list; the mutable state is the same `FState`
@@ -189,15 +189,6 @@ def ofNet (net : Net W) : Except Err (FastModNet W) :=
             .ok { base := { nBias := biasL.length, nInput := inL.length, nOutput := net.outputs.length,
                             nTotal := total, acts := acts, biasList := b3, conns := c3 },
                   modules := ms }
-
-/-! ### the wiring under which `Flush` restores everything a module can read -/
-
-/-- nothing writes the processing cell of a bias neuron: no connection and no module output targets an index below
-    `biasNeuronCount` (`Flush` zeroes `neuronSignalsBeingProcessed` only from `biasNeuronCount` on, and a module may
-    read any cell) -/
-def biasCellsUnwritten (fm : FastModNet W) : Bool :=
-  (fm.base.conns.all fun c => decide (fm.base.nBias ≤ c.dst)) &&
-  (fm.modules.all fun m => m.outs.all fun o => decide (fm.base.nBias ≤ o))
 
 end
 end GoNeat.FastMod
